@@ -162,15 +162,21 @@ IDLE = 1200       # virtual seconds after which a contact that answered is no lo
                   # is 720 s, and a node pings whoever stored on it 300 s later): lookups then confirm peers with a ping
 
 
-def announce_phase(net, ann, key, drive):
+PORTS = (1024, 3333, 32767, 32768, 50505, 65534)      # announcer tcp ports (one-factor); 65535 see PORT_REFUSED
+PORT_REFUSED = 65535        # a legal tcp port, but store() demands port < 65535 on both sides: tallied, not enforced
+
+
+def announce_phase(net, ann, key, drive, port=TCP_PORT):
     from vf.udpfab import node_ip
     from refs.kademlia_ref import closest_k
     lp = net.loop
+    net.nodes[ann].protocol.peer_port = port                 # where this node's blob server listens
+    net.nodes[ann].protocol.node_rpc.peer_port = port
     t0 = lp.time()
     status, task = drive(net.nodes[ann].announce_blob(key.hex()))
     st, exc = task_outcome(status, task, lp)
     stored = [idx_of(net, i) for i in task.result()] if st == 'done' else []
-    ann_peer = (node_ip(ann), TCP_PORT)
+    ann_peer = (node_ip(ann), port)
     holding = []
     for i, nd in enumerate(net.nodes):
         for p in nd.protocol.data_store.get_peers_for_blob(key):
@@ -181,18 +187,19 @@ def announce_phase(net, ann, key, drive):
             'ideal': sorted(ideal), 'duration': round(lp.time() - t0, 3)}
 
 
-def hit_prepare(net, ann, key, idle):
+def hit_prepare(net, ann, key, idle, port=TCP_PORT):
     """Default-schedule prefix of a lookup-phase-only exploration: announce, then `idle` seconds of periodic traffic.
     Mutates the network (call it in the process that is forked per execution, or at the start of a replay)."""
     lp = net.loop
     lp.activate()
-    a = announce_phase(net, ann, key, lambda coro: lp.run_task(coro, max_steps=HIT_STEPS))
+    a = announce_phase(net, ann, key, lambda coro: lp.run_task(coro, max_steps=HIT_STEPS), port)
     if idle:
         lp.advance_to(lp.time() + idle, max_steps=2_000_000)
     return a
 
 
-def hit_case(net, ann, key, prefix=(), bound=0, alpha_name='full', entry='finder', idle=0, prepared=None):
+def hit_case(net, ann, key, prefix=(), bound=0, alpha_name='full', entry='finder', idle=0, prepared=None,
+             port=TCP_PORT):
     """announce by node `ann`, then every other node looks the key up (sequentially) through the entry point(s) named by
     `entry`: 'finder' = Node.get_iterative_value_finder, 'accumulate' = Node.accumulate_peers (the queue interface the
     downloader uses: found blob peers are confirmed with a DHT ping before they are queued), 'both'.
@@ -217,11 +224,11 @@ def hit_case(net, ann, key, prefix=(), bound=0, alpha_name='full', entry='finder
 
     n = net.n
     obs = {}
-    ann_peer = (node_ip(ann), TCP_PORT)
+    ann_peer = (node_ip(ann), port)
     if prepared is not None:
         obs['announce'] = prepared
     else:
-        obs['announce'] = announce_phase(net, ann, key, drive)
+        obs['announce'] = announce_phase(net, ann, key, drive, port)
         if idle:
             lp.advance_to(lp.time() + idle, max_steps=2_000_000)
     obs['lookups'] = []
@@ -795,6 +802,22 @@ def work_hit(item, res):
             if len(res.samples) < 2:
                 res.sample({'case': case, 'announce': obs['announce'],
                             'lookups': [(lk['searcher'], lk['hit']) for lk in obs['lookups']]})
+        for ann, hname, port, entry in item.get('port_cases', ()):
+            case = dict(base, ann=ann, hash=hname, choices=[], entry=entry, port=port)
+            key = blob_key(n, ann, hname)
+            _, obs = fork_call(hit_case, net, ann, key, (), 0, 'full', entry, 0, None, port)
+            if port == PORT_REFUSED:
+                res.count('executions')
+                if not obs['announce']['stored']:
+                    res.tally('interpretation_only:tcp_port_65535_cannot_be_announced_store_demands_port_below_65535')
+                continue
+            note_hit(res, case, obs, fixed)
+            if port >= 32768 and any(lk['hit'] and lk['beyond_shortlist'] + 1 for lk in obs['lookups']):
+                res.witness('announcer_with_tcp_port_above_32767_found')
+            if any(lk['hit'] and lk['searcher'] not in obs['announce']['holding'] for lk in obs['lookups']):
+                res.witness('announcer_found_by_searcher_that_does_not_store_the_blob')
+            for sig, what in judge_hit(case, obs, fixed):
+                res.violation(dict(sig, port=port), what + f' [announcer tcp port {port}]', replay_dict(case))
         d = item.get('dfs')
         if d:
             case = dict(base, ann=d['ann'], hash=d['hash'], entry=d.get('entry', 'finder'))
@@ -880,8 +903,9 @@ def rpc_id_for(tag):
 class Storer:
     """A scripted but protocol-conforming contact: findValue (to learn the token) then store, over the fabric."""
 
-    def __init__(self, loop, j, target, key):
+    def __init__(self, loop, j, target, key, port=TCP_PORT):
         from vf.udpfab import FakeEndpoint
+        self.port = port
         self.ep = FakeEndpoint(loop, (f'5.6.{7 + j // 200}.{j % 200 + 1}', UDP_PORT))
         self.ep.datagram_received = self.on_datagram
         self.ep.attach()
@@ -905,23 +929,30 @@ class Storer:
         if self.state == 'token':
             self.state = 'store'
             self.ep.send(self.target, benc({0: 0, 1: rpc_id_for(b'st%d' % self.j), 2: self.id, 3: b'store',
-                                            4: [self.key, m[3][b'token'], TCP_PORT, self.id, 0, {b'protocolVersion': 1}]}))
+                                            4: [self.key, m[3][b'token'], self.port, self.id, 0, {b'protocolVersion': 1}]}))
         elif self.state == 'store':
             self.state = 'stored' if m[3] == b'OK' else 'refused'
 
 
-def paging_case(net, count):
+# blob server ports over the whole legal range (both sides of 2^15 and of the two port-guessing windows of node.py);
+# 65534 because KademliaRPC.store refuses 65535 (tallied, see PORTS)
+MIXED_PORTS = (1024, 3333, 32767, 32768, 50505, 65534)
+PAGING_MIXED_COUNTS = (1, 6, 8, 9, 30, 100)
+
+
+def paging_case(net, count, mixed=False):
     from vf.udpfab import node_addr
     lp = net.loop
     lp.activate()
     key = hashlib.sha384(b'paged blob').digest()
     it0, del0 = lp.iterations, lp.stats['delivered']
-    storers = [Storer(lp, j, node_addr(0), key) for j in range(count)]
+    storers = [Storer(lp, j, node_addr(0), key, MIXED_PORTS[j % len(MIXED_PORTS)] if mixed else TCP_PORT)
+               for j in range(count)]
     for s in storers:
         s.begin()
     lp.run_until(lambda: all(s.state not in ('token', 'store') for s in storers) and not lp.inflight and not lp._ready,
                  max_steps=HIT_STEPS)
-    held = sorted((p.address, p.tcp_port) for p in net.nodes[0].protocol.data_store.get_peers_for_blob(key))
+    held = sorted((s.ep.addr[0], s.port) for s in storers if s.state == 'stored')     # what the announcers were told
     sink = []
     lp.sent_log = []
     status, task = lp.run_task(value_lookup(net.nodes[1], key, sink), max_steps=HIT_STEPS)
@@ -956,19 +987,24 @@ def work_paging(item, res):
     try:
         if join_violation(res, info, 2, [0, 1], 0.0, item['seed']):
             return
-        for count in item['counts']:
-            obs = fork_call(paging_case, net, count)
+        for count in [(c, False) for c in item['counts']] + [(c, True) for c in item.get('mixed_counts', ())]:
+            count, mixed = count
+            obs = fork_call(paging_case, net, count, mixed)
             res.count('executions')
             res.count('evaluations')
             res.count('transitions', sum(obs['work']))
-            res.distinct_add('states', ('paging', count))
-            res.distinct_add('nontrivial', ('paging', count, obs['requests']))
+            res.distinct_add('states', ('paging', count, mixed))
+            res.distinct_add('nontrivial', ('paging', count, mixed, obs['requests']))
+            if mixed and obs['found'] == count and not obs['missing']:
+                res.witness('paging_returned_peers_with_tcp_ports_on_both_sides_of_32768')
             if obs['requests'] >= 2:
                 res.witness('paging_needed_more_than_one_request')
             for sig, what in judge_paging(obs):
-                res.violation(sig, what, {'half': 'paging', 'count': count, 'seed': item['seed']})
+                if mixed:
+                    sig = dict(sig, ports='mixed')
+                res.violation(sig, what, {'half': 'paging', 'count': count, 'mixed': mixed, 'seed': item['seed']})
             if count in (1, 100):
-                again = fork_call(paging_case, net, count)
+                again = fork_call(paging_case, net, count, mixed)
                 res.count('determinism_replays')
                 if canon(again) != canon(obs):
                     res.error(f'C12 paging: nondeterministic replay for N={count}')
@@ -1376,6 +1412,12 @@ def plan(tier, seed):
                     if oi == 0 and n in ((3,) if quick else (3, 5)):
                         items.append({'half': 'hit', 'n': n, 'order': order, 'stagger': stagger, 'seed': seed,
                                       'cases': [], 'port_change': True})
+    # announcer tcp port, one factor at a time: small n through both entry points (every searcher also stores the blob and
+    # knows the announcer's udp port), n = 12 through the finder (three searchers learn the announcer from the network
+    # only; accumulate_peers would have to guess the udp port from the tcp port there, which node.py only does for 3333+)
+    for n, entry in ((2, 'both'), (3, 'both'), (12, 'finder')):
+        items.append({'half': 'hit', 'n': n, 'order': list(range(n)), 'stagger': 0.0, 'seed': seed, 'cases': [],
+                      'port_cases': [(n - 1, 'far', port, entry) for port in PORTS + (PORT_REFUSED,)]})
     # the real BlobAnnouncer loop needs more than 4 storing peers to consider a blob announced: n = 6
     items.append({'half': 'hit', 'n': 6, 'order': list(range(6)), 'stagger': 0.0, 'seed': seed, 'cases': [],
                   'announcer_hours': ANNOUNCER_HOURS[tier], 'follow_expiry': not quick})
@@ -1387,7 +1429,8 @@ def plan(tier, seed):
                                   'part': part, 'parts': d['parts'], 'entry': d['entry'], 'idle': d['idle']}})
     counts = list(range(1, 101))
     for lo in range(0, 100, 10):
-        items.append({'half': 'paging', 'counts': counts[lo:lo + 10], 'seed': seed})
+        items.append({'half': 'paging', 'counts': counts[lo:lo + 10], 'seed': seed,
+                      'mixed_counts': [c for c in PAGING_MIXED_COUNTS if lo < c <= lo + 10]})
     for n in (3, 4, 5, 6):
         searchers = [n - 1] if (quick or n >= 5) else [n - 1, 0]
         for s in searchers:
@@ -1531,7 +1574,8 @@ def run(ctx):
                 'history_n': {'reannouncement_histories_48h': [2, 3, 4] if quick else [2, 3, 4, 5],
                               'single_announcement_24h_only': [] if quick else [8, 9, 12],
                               'new_tcp_port': [3] if quick else [3, 5], 'blob_announcer': {'n': 6, 'hours': ANNOUNCER_HOURS[ctx.tier]}},
-                'paging_counts': '1..100', 'term_n': [3, 4, 5, 6], 'fault_kinds': list(FAULT_KINDS),
+                'paging_counts': '1..100 (+ mixed tcp ports for N in %s)' % (PAGING_MIXED_COUNTS,),
+                'announcer_tcp_ports': {'enforced': list(PORTS), 'tallied': [PORT_REFUSED], 'n': [2, 3, 12]}, 'term_n': [3, 4, 5, 6], 'fault_kinds': list(FAULT_KINDS),
                 'single_invalid_values': ['%s:%d' % bv for bv in BAD_VALUES],
                 'term_loss_scope': 'quick: n=3 bound 1; thorough: n=3 bound 2 (honest/silent/garbage) + bound 1 (all '
                                    'kinds), n=4 bound 1 (light kinds)',
@@ -1552,6 +1596,9 @@ def run(ctx):
             'past; success moves it DATA_EXPIRATION/2 ahead), on the virtual clock',
         ],
         expected_witnesses=['announce_stored', 'stored_on_exactly_k_closest', 'deviation_changed_delivery_order',
+                            'announcer_with_tcp_port_above_32767_found',
+                            'announcer_found_by_searcher_that_does_not_store_the_blob',
+                            'paging_returned_peers_with_tcp_ports_on_both_sides_of_32768',
                             'deviation_dup', 'deviation_timer', 'deviation_hold', 'paging_needed_more_than_one_request',
                             'accumulate_peers_queued_announcer_after_network_traffic',
                             'accumulate_peers_confirmation_overlapped_timers',
@@ -1576,7 +1623,7 @@ def replay(data):
     if half == 'paging':
         net, info = build_net(2, [0, 1], 0.0, data.get('seed', 0))
         try:
-            obs = paging_case(net, data['count'])
+            obs = paging_case(net, data['count'], bool(data.get('mixed')))
         finally:
             net.stop()
         viol = judge_paging(obs)
@@ -1605,9 +1652,11 @@ def replay(data):
                 log += [canon(p) for p in obs['probes'] if (p['expect'] == 'found') != p['hit']]
             else:
                 key = blob_key(data['n'], data['ann'], data['hash'])
-                prepared = hit_prepare(net, data['ann'], key, data.get('idle', 0)) if data.get('lookup_only') else None
+                prepared = hit_prepare(net, data['ann'], key, data.get('idle', 0), data.get('port', TCP_PORT)) \
+                    if data.get('lookup_only') else None
                 _, obs = hit_case(net, data['ann'], key, tuple(data.get('choices', ())), data.get('bound', 0),
-                                  data.get('alphabet', 'full'), data.get('entry', 'finder'), data.get('idle', 0), prepared)
+                                  data.get('alphabet', 'full'), data.get('entry', 'finder'), data.get('idle', 0), prepared,
+                                  data.get('port', TCP_PORT))
                 viol = judge_hit(data, obs, fixed)
                 log.append(canon(obs))
         finally:
